@@ -120,8 +120,11 @@ pub fn minify(xml: &str, keep_first: bool) -> String {
             }
             None => (rest, "", ""),
         };
-        for c in plain.chars() {
-            if c == '\n' || c == '\r' {
+        // line ends of the layout stand between two pieces of markup; a string with characters that no CDATA section can
+        // hold is written as escaped text, where '<' and '>' never occur as such
+        let mut it = plain.chars().peekable();
+        while let Some(c) = it.next() {
+            if (c == '\n' || c == '\r') && out.ends_with('>') && matches!(it.peek(), None | Some('<')) && (it.peek().is_some() || cdata.is_empty()) {
                 if !kept {
                     kept = true;
                     out.push(c);
@@ -275,6 +278,8 @@ pub struct Trace {
     pub finalized_after_error: bool,
     /// input flag: calls on an image writer after its finalize (must be refused)
     pub late_image_calls: bool,
+    /// input flag: a second visual reference for an image that has one (must be refused: an image lists one)
+    pub repeat_visual: bool,
 }
 impl Trace {
     fn after_ok(&mut self, name: &str) {
@@ -384,6 +389,17 @@ pub fn exec_image<T: std::io::Read + std::io::Write + std::io::Seek>(w: &mut E57
                     mask_dyn
                 )
             ),
+        }
+    }
+    if tr.repeat_visual && im.visual.is_some() {
+        // an image lists one visual reference: the data of an earlier one would be written but never listed
+        let data = [7u8, 7, 7];
+        let mut r: &[u8] = &data;
+        tr.current = "add_visual_reference (second call)".into();
+        tr.calls += 1;
+        if iw.add_visual_reference(ImageFormat::Png, &mut r, VisualReferenceImageProperties { width: 1, height: 1 }, None).is_ok() {
+            tr.error = Some(("add_visual_reference (second call)".into(), "accepted: the data of the first visual reference is written but never listed".into()));
+            return;
         }
     }
     if im.finalize {
